@@ -89,11 +89,12 @@ where
             write!(result, "{start},{second_processor_id}")
                 .expect("writing to a String is infallible");
         } else {
-            let last_processor_id = start
-                .checked_add(len)
-                .expect("overflow impossible unless we far exceed any realistic processor ID range")
+            // Subtract before adding: `start + len` is one past the last item and overflows
+            // for a range that ends at the maximum item value, even though `start + len - 1` fits.
+            let last_processor_id = len
                 .checked_sub(1)
-                .expect("cannot underflow because len is NonZero");
+                .and_then(|len_minus_one| start.checked_add(len_minus_one))
+                .expect("cannot overflow because the last item of the range is an existing item");
 
             write!(result, "{start}-{last_processor_id}")
                 .expect("writing to a String is infallible");
